@@ -457,6 +457,8 @@ theorem apply_acct {s : CAStoreMem.State} (h : Acct s) (o : Op) : Acct (CAStoreM
   | ttl => exact ttlSweep_acct h
   | tick dt => exact acct_of_eq h rfl
   | delete n => simp only [CAStoreMem.apply, deleteCache]; split <;> first | exact h | exact acct_of_eq h rfl
+  | block p => simp only [CAStoreMem.apply, block]; split <;> first | exact h | exact acct_of_eq h rfl
+  | unblock p => simp only [CAStoreMem.apply, unblock]; split <;> first | exact h | exact acct_of_eq h rfl
 
 end Store
 
